@@ -181,8 +181,14 @@ def full_equal(m1: RefGraph, m2: RefGraph):
     None when the search budget is exhausted (oracle abstains)"""
     if m1.kind != m2.kind:
         return False
+    labels = None
+    if m1.is_reaction and any("reaction" in at for m in (m1, m2) for at in m.atoms.values()):
+        # reaction classes compare the atom attribute "reaction" as part of the
+        # atom label (crg.py: label_hash(..., ("atom_type", "reaction"))); the
+        # properties do not mention it, the oracle follows the library there
+        labels = tuple({a: repr((at["atom_type"], at.get("reaction"))) for a, at in m.atoms.items()} for m in (m1, m2))
     try:
-        return isomorphic(m1, m2, stereo=m1.is_stereo, changes=m1.has_changes,
+        return isomorphic(m1, m2, labels=labels, stereo=m1.is_stereo, changes=m1.has_changes,
                           roles=m1.is_reaction)
     except BudgetExceeded:
         return None
